@@ -24,7 +24,11 @@ import (
 // mirror of eventsChannelSize, read from the source the harness was built against (the model takes
 // the same constant from Params.v through the translator)
 var eventsCap = readEventsCap()
-const nProj = 3
+const nProj = 4
+
+// projection hbProj is the Heartbeat30 projection: Subscribe accepts any {app, sys.Heartbeat30, ws}
+// key and maps it to in10n.Heartbeat30ProjectionKey; Update and the metrics take the zero key
+const hbProj = 3
 const nSubj = 2
 const maxChans = 4
 
@@ -110,7 +114,51 @@ func readUpdBlocking() bool {
 const blockPatience = 15 * time.Millisecond
 
 func projKey(p int) in10n.ProjectionKey {
+	if p == hbProj {
+		return in10n.Heartbeat30ProjectionKey
+	}
 	return in10n.ProjectionKey{App: istructs.AppQName_test1_app1, Projection: appdef.NewQName("verif", "prj"), WS: istructs.WSID(p + 1)}
+}
+
+// subKey: the key a client passes to Subscribe (for the heartbeat a non-zero key, per channel)
+func subKey(c, p int) in10n.ProjectionKey {
+	if p == hbProj {
+		return in10n.ProjectionKey{App: istructs.AppQName_test1_app1, Projection: in10n.QNameHeartbeat30, WS: istructs.WSID(7 + c)}
+	}
+	return projKey(p)
+}
+
+// unsKey: the key passed to Unsubscribe. Unsubscribe does not map a heartbeat key to the zero key
+// as Subscribe does (findings/C20/HB-UNSUB.md; outside the statement of C20), so the client of
+// the scenarios unsubscribes with the zero key - unless the source normalises the key there too
+func unsKey(c, p int) in10n.ProjectionKey {
+	if p == hbProj && unsNormalises {
+		return subKey(c, p)
+	}
+	return projKey(p)
+}
+
+var unsNormalises = readUnsNormalises()
+
+func readUnsNormalises() bool {
+	repo := os.Getenv("VERIF_REPO")
+	if repo == "" {
+		repo = "/repo"
+	}
+	b, err := os.ReadFile(repo + "/pkg/in10nmem/impl.go")
+	if err != nil {
+		return false
+	}
+	src := string(b)
+	i := strings.Index(src, ") Unsubscribe(")
+	if i < 0 {
+		return false
+	}
+	body := src[i:]
+	if j := strings.Index(body[1:], "\nfunc "); j >= 0 {
+		body = body[:j+1]
+	}
+	return strings.Contains(body, "QNameHeartbeat30")
 }
 
 type gcall struct {
@@ -300,9 +348,9 @@ func (d *drv) start(kind string, c, p int, off uint64) {
 		case "upd":
 			d.nb.Update(projKey(p), istructs.Offset(off))
 		case "sub":
-			g.err = d.nb.Subscribe(d.chanID(c), projKey(p))
+			g.err = d.nb.Subscribe(d.chanID(c), subKey(c, p))
 		case "uns":
-			g.err = d.nb.Unsubscribe(d.chanID(c), projKey(p))
+			g.err = d.nb.Unsubscribe(d.chanID(c), unsKey(c, p))
 		case "cln":
 			d.chanClean[c]()
 		}
@@ -634,7 +682,11 @@ func (d *drv) watch(c int) {
 			}
 		}()
 		d.nb.WatchChannel(ctx, d.chanID(c), func(pk in10n.ProjectionKey, o istructs.Offset) {
-			w.units = append(w.units, [2]uint64{uint64(pk.WS) - 1, uint64(o)})
+			p := uint64(pk.WS) - 1
+			if pk.Projection == in10n.QNameHeartbeat30 {
+				p = hbProj
+			}
+			w.units = append(w.units, [2]uint64{p, uint64(o)})
 		})
 	})
 	pt, ok := w.pr.arrive(patience)
